@@ -45,6 +45,25 @@ def inputs(rng, thorough):
         short = "\n".join(l for i, l in enumerate(lines) if not (i in r["lines"] and l[12:16].strip() not in ("N", "CA", "C", "O", "CB")))
         out.append((f"1HPX[18:70] models 1,3 complete, model 2 lacks side chain of {r['name']}{r['num'].strip()}", structures.as_models([fr, short, fr])))
         out.append((f"1HPX[18:70] model 1 lacks side chain of {r['name']}{r['num'].strip()}, model 2 complete", structures.as_models([short, fr])))
+    # two models with the SAME number of atoms that lack DIFFERENT atoms (each must be completed from the other)
+    asp = next((r for r in structures.residues(fr) if r["name"] == "ASP"), None)
+    glu = next((r for r in structures.residues(fr) if r["name"] == "GLU"), None)
+    if asp and glu:
+        m1 = "\n".join(l for i, l in enumerate(lines) if not (i in asp["lines"] and l[12:16].strip() in ("OD1", "OD2")))
+        m2 = "\n".join(l for i, l in enumerate(lines) if not (i in glu["lines"] and l[12:16].strip() in ("OE1", "OE2")))
+        out.append((f"1HPX[18:70] equal-size models: model 1 lacks ASP{asp['num'].strip()} oxygens, model 2 lacks GLU{glu['num'].strip()} oxygens", structures.as_models([m1, m2])))
+    # three alternate locations of several side chains (desolvation atom counts differ between the conformations)
+    lys = [r for r in structures.residues(fr) if r["name"] in ("LYS", "ARG", "GLU")][:3]
+    new = []
+    for i, l in enumerate(lines):
+        if any(i in r["lines"] for r in lys) and l[12:16].strip() not in ("N", "CA", "C", "O"):
+            x, y, z = (float(v) for v in structures.get_xyz(l))
+            new.append(l[:16] + "A" + l[17:])
+            new.append(structures.set_xyz(l[:16] + "B" + l[17:], x + 0.9, y + 0.7, z - 0.6))
+            new.append(structures.set_xyz(l[:16] + "C" + l[17:], x - 1.1, y + 0.2, z + 0.8))
+        else:
+            new.append(l)
+    out.append(("1HPX[18:70] three alternate locations on three side chains", "\n".join(new) + "\n"))
     if thorough:
         out.append(("4DFR.pdb", structures.read("4DFR.pdb")))
     return out, fr
@@ -89,7 +108,7 @@ def run(chk: common.Check):
             if not present:
                 found.append(("average-of-nothing", f"{name}: AVR group {a.label} exists in no conformation", {"case": name}))
                 continue
-            for f in ("pka_value", "energy_volume", "energy_local", "buried"):
+            for f in ("pka_value", "energy_volume", "energy_local", "buried", "num_volume", "num_local"):
                 want = mean([getattr(p, f) for p in present])
                 if abs(getattr(a, f) - want) > 1e-9:
                     found.append((f"average-not-mean:{'partial' if len(present) < len(names) else 'all'}",
@@ -115,6 +134,23 @@ def run(chk: common.Check):
                 g = c0.find_group(a)
                 if not g or g.pka_value != a.pka_value or [(d.label, d.value) for k in KINDS for d in g.determinants[k]] != [(d.label, d.value) for k in KINDS for d in a.determinants[k]]:
                     found.append(("single-conformation-not-identity", f"{name}: AVR {a.label} differs from the only conformation", {"case": name}))
+        # ---- topping up completes every conformation: an atom present in some conformation is present in all, unless the residue types differ there
+        allkeys = {}
+        for c in names:
+            for at in mol.conformations[c].atoms:
+                if at.element != "H":
+                    allkeys.setdefault((at.chain_id, at.res_num, at.icode, at.name), set()).add((c, at.res_name))
+        for k, where in allkeys.items():
+            if len({w[1] for w in where}) == 1 and len(where) != len(names):
+                resn = {}
+                for c in names:
+                    for at in mol.conformations[c].atoms:
+                        if (at.chain_id, at.res_num, at.icode) == k[:3]:
+                            resn.setdefault(c, at.res_name)
+                if len(set(resn.values())) == 1 and len(resn) == len(names):
+                    found.append(("conformation-not-completed", f"{name}: atom {k[3]} of {next(iter(where))[1]} {k[1]}{k[0]} is present in {sorted(w[0] for w in where)} only, although every "
+                                  f"conformation has that residue", {"case": name, "atom": k, "pdb_text": text if len(text) < 30000 else None}))
+                    break
         # ---- topping up never merges residue types
         for c in names:
             seen = {}
